@@ -318,6 +318,7 @@ pub struct FrontendCtx<'a, R: FileManager> {
     pub counter: usize,
 
     pub type_application_stack: Vec<(String, Runtype)>,
+    typeof_value_stack: Vec<ModuleItemAddress>,
     jsdoc_cache_by_file: BTreeMap<BffFileName, JsdocFileCache>,
 }
 
@@ -1133,6 +1134,7 @@ impl<'a, R: FileManager> FrontendCtx<'a, R> {
             counter: 0,
 
             type_application_stack: vec![],
+            typeof_value_stack: vec![],
             recursive_generic_uuids: BTreeSet::new(),
             jsdoc_cache_by_file: BTreeMap::new(),
         }
@@ -2343,7 +2345,14 @@ impl<'a, R: FileManager> FrontendCtx<'a, R> {
                     name: i.sym.to_string(),
                     visibility: Visibility::Local,
                 };
-                self.extract_addressed_value_from_address(&new_addr, &anchor)
+                // `const a = b; const b = a;` has no type to take: following the initializers would not end
+                if self.typeof_value_stack.contains(&new_addr) {
+                    return self.error(&anchor, DiagnosticInfoMessage::TypeofValueReferencesItself);
+                }
+                self.typeof_value_stack.push(new_addr.clone());
+                let res = self.extract_addressed_value_from_address(&new_addr, &anchor);
+                self.typeof_value_stack.pop();
+                res
             }
             Expr::Array(lit) => {
                 let mut prefix_items = vec![];
